@@ -184,6 +184,12 @@ def probe_instants(data, tier, rng, max_trans=40):
                 for k in (1, 2, 1000, 729000, (I64_MAX - inst) // P400):
                     out.append(clamp(inst + k * P400))
                     out.append(clamp(inst + k * P400 - 1))
+        # the rule's transitions in the last (and first) representable years: saturation happens per field there
+        for Y in (292277026596, 292277026595, 292277026594, -292277022657, -292277022656):
+            for inst in (rule_instant(ds, ts, std, Y), rule_instant(de, te, dst, Y)):
+                for d in (-3601, -3600, -2, -1, 0, 1, 2, 3599, 3600):
+                    if I64_MIN <= inst + d <= I64_MAX:
+                        out.append(inst + d)
     # multiples of 400 years nearest the limits
     for base in (last, 0):
         k = (I64_MAX - base) // P400
@@ -283,6 +289,12 @@ def synthetic_zones(rng, tier):
     mk("syn_late", b"STD5DST,M3.2.0,M11.1.0", times=[t0, 4102444800 * 3], idx=[1, 2])
     # footer offsets beyond 24 h: Load() bounds the type table's offsets by +-24h but not the
     # types the footer adds (std up to 24:59:59, default dst one hour more) - found by LoadCert.v
+    # a rule whose spring-forward instant of the LAST representable year lies seconds before time_point::max()
+    # (292277026596-12-04T15:30:07Z): in that gap pre saturates while trans and post do not; and the mirror
+    # image at the other end (first representable instant -292277022657-01-27T08:29:52Z)
+    mk("syn_lastgap", b"AAA0BBB,J338/15:30,J60/3", std=0, dst=3600, types=[(-100, 0, 0), (0, 0, 4), (3600, 1, 8)], ab=b"LMT\0AAA\0BBB\0")
+    mk("syn_lastgap2", b"AAA0BBB,J338/15:29:30,J60/3", std=0, dst=3600, types=[(-100, 0, 0), (0, 0, 4), (3600, 1, 8)], ab=b"LMT\0AAA\0BBB\0")
+    mk("syn_firstgap", b"AAA0BBB,J27/8:30,J300/3", std=0, dst=3600, types=[(-100, 0, 0), (0, 0, 4), (3600, 1, 8)], ab=b"LMT\0AAA\0BBB\0")
     mk("syn_wide_footer", b"AAA-24:30BBB,M3.2.0,M11.1.0", times=[], idx=[], types=[(0, 0, 0)], ab=b"UTC\0")
     mk("syn_wide_footer2", b"AAA24:59:59BBB,M3.2.0,M11.1.0", std=-89999, dst=-86399,
        types=[(-17762, 0, 0), (-86399, 0, 4), (-86399, 1, 8)])
